@@ -136,6 +136,13 @@ def run_case(case, ctx):
             break
     else:
         d, n = 2, [m, m + 1]
+    if rng.random() < 0.15:
+        # one long mode (mode size times expected rank beyond 255 / 65535 is
+        # where index arithmetic in a narrow dtype would wrap)
+        d = int(rng.integers(2, 4))
+        n = [int(rng.integers(m, m + 2)) for _ in range(d)]
+        n[int(rng.integers(d))] = int(rng.integers(64, 301))
+        ctx.event('one-long-mode')
     Y, rt = gen.exact_rank_tt(rng, n, rho)
     scale = 10.0 ** rng.uniform(-3, 3)
     tiny = False
@@ -159,6 +166,11 @@ def run_case(case, ctx):
         return
     y = T[tuple(I.T)]
     cap = [1e12, rho, rho + 1, m][int(rng.integers(4))]
+    if cap != 1e12 and rng.random() < 0.4:
+        # the cap as a float with an integer value (the documented default
+        # 1e12 is a float as well), also where it ties with a block width
+        cap = [float(cap), np.float64(cap), np.int64(cap)][int(rng.integers(3))]
+        ctx.event('cap-as-' + type(cap).__name__)
     u = rng.random()
     if tiny:
         e_t = 1e-10 * float(np.abs(y).max())
